@@ -91,7 +91,7 @@ def expected_module(d, v):
                 visit(sname, sub)
                 fact["kind"] = "structarr" if arr else "struct"; fact["struct"] = sname
                 members = [m for m in sub if inr(parse_range(m.get("versions", m.get("taggedVersions"))), v)]
-                if not arr and tag is not None and members and all("default" in m for m in members):
+                if inline and not arr and tag is not None and "default" not in f and not nullable_v and members and all("default" in m for m in members):
                     fact["_default_is_struct_of_member_defaults"] = True      # "defaults as the definition states"
                 fact["optional"] = nullable_v if (arr or inline) else False
             exp.append(fact)
@@ -252,7 +252,7 @@ def run(ctx):
                 bytes_term = f"(Ok {coq_bytes(bytes.fromhex(enc[1]))})" if enc[0] == "ok" else f"(Err {enc[1] if not enc[1].startswith('Other') else 'EAssert'})"
                 wire_cases.append(f"{{| wc_def := {defgen.coq_defn(dd)}; wc_version := {defgen.cz(v)}; wc_class := {defgen.cstr(rec['qualname'])}; "
                                   f"wc_val := {to_coq(from_json(rec['value']))}; wc_bytes := {bytes_term} |}}")
-                wire_meta.append((dd["name"], v, rec["qualname"]))
+                wire_meta.append((dd["name"], v, rec["qualname"], rec["value"], enc))
     failing = []
     if wire_cases:
         blt0 = "[" + "; ".join(defgen.cstr(b) for b in sorted(dir(builtins))) + "]"
@@ -338,9 +338,14 @@ def run(ctx):
                      "definitions_dir": str(ddir)})
     elif wire_failing:
         viol.append({"kind": "correspondence", "observation": "C16: bytes kio encodes for instances of generated classes vs the model "
-                     "encoder over the plans read off the definition (and their well-formedness)", "failing_input_found": False,
-                     "n_disagreements": len(wire_failing),
-                     "cases": [{"definition": wire_meta[i][0], "version": wire_meta[i][1], "class": wire_meta[i][2]} for i in wire_failing[:5]]})
+                     "encoder over the plans read off the definition (and their well-formedness)",
+                     # the plans read off the definition ARE the independent reading of the wire clause (Gen/GenPlan.v, equal to the
+                     # wire specification by c16_supported_definitions_encode_to_spec): each disagreement is an instance whose bytes
+                     # are not the prescribed ones
+                     "failing_input_found": True, "n_disagreements": len(wire_failing),
+                     "cases": [{"definition": wire_meta[i][0], "version": wire_meta[i][1], "class": wire_meta[i][2],
+                                "instance": wire_meta[i][3], "bytes_written_by_kio": str(wire_meta[i][4])[:300]} for i in wire_failing[:5]],
+                     "definitions": [json.loads((ddir / f"{n}.json").read_text()) for n in sorted({wire_meta[i][0] for i in wire_failing})[:2]]})
     elif failing:
         bad_defs = sorted({meta[i][0] for i in failing})[:3]
         viol.append({"kind": "correspondence", "observation": "C16: classes emitted by codegen vs Gen/Gen.v gen_module",
